@@ -6,6 +6,7 @@ package checks
 // length; files built by the independent encoder and by real SQLite.
 
 import (
+	"bytes"
 	"fmt"
 	"github.com/alicebob/sqlittle"
 	"math"
@@ -181,6 +182,7 @@ func runC14(r *ev.Run) {
 	c14Values(r)
 	c14Wide(r)
 	c14Dense(r)
+	c14Huge(r)
 }
 
 // c14Dense: the smallest records there are - columns holding NULL, the constants 0 and 1, an empty text or an
@@ -601,5 +603,93 @@ func c14ReadNamed(r *ev.Run, image []byte, spec *dbgen.Spec, img *dbgen.Image, d
 	}
 	if !RowsEq(got, want, false) {
 		r.Violation("C14:table-values:"+fmt.Sprint(desc["family"]), "Select decodes differently: "+firstDiff(got, want), desc)
+	}
+}
+
+// c14Huge: values far beyond anything that fits a few pages: lengths around 2^16, 10^6, 2^20 and 2^24 (10^7 and 2^25
+// thorough) as table rows and as index entries, written by SQLite, at the page sizes with the longest and the
+// shortest overflow chains
+func c14Huge(r *ev.Run) {
+	lengths := []int{65535, 65536, 65537, 999999, 1000000, 1000001, 1048575, 1048576, 1048577, 16777217}
+	sizes := []int{4096, 65536}
+	if r.Thorough() {
+		lengths = append(lengths, 10000001, 16777215, 16777216, 33554433)
+		sizes = []int{512, 4096, 65536}
+	}
+	for _, ps := range sizes {
+		l, err := lite.OpenMem()
+		if err != nil {
+			r.Harness("lite: %v", err)
+			return
+		}
+		l.MustExec(fmt.Sprintf("PRAGMA page_size=%d", ps))
+		l.MustExec("CREATE TABLE huge (id INTEGER PRIMARY KEY, v)")
+		want := map[int64]int{}
+		for i, L := range lengths {
+			l.MustExec(fmt.Sprintf("INSERT INTO huge VALUES (%d, printf('%%.%dc', 'x') || '%d')", 2*i+1, L-len(fmt.Sprint(i)), i))
+			want[int64(2*i+1)] = L
+			if i%3 == 2 {
+				l.MustExec(fmt.Sprintf("INSERT INTO huge VALUES (%d, zeroblob(%d))", 2*i+2, L))
+				want[int64(2*i+2)] = L
+			}
+		}
+		l.MustExec("CREATE INDEX huge_v ON huge (v)")
+		img := l.Serialize()
+		l.Close()
+		r.Validated(1)
+		desc := map[string]interface{}{"family": "huge", "page_size": ps, "lengths": lengths, "builder": "sqlite"}
+		h, _, _, err := vpager.OpenImage(img)
+		if err != nil {
+			r.Violation("C14:open", fmt.Sprintf("database written by SQLite refused: %v", err), desc)
+			continue
+		}
+		check := func(how string, rows [][]interface{}, err error, n int) {
+			r.Eval(n)
+			r.NontrivialN(n)
+			r.Trans(1)
+			if err != nil {
+				r.Violation("C14:select-error", fmt.Sprintf("%s on a database written by SQLite with values of up to %d bytes (page size %d): %v", how, lengths[len(lengths)-1], ps, err), desc)
+				return
+			}
+			if len(rows) != n {
+				r.Violation("C14:table-values:huge", fmt.Sprintf("%s: %d rows, SQLite stored %d", how, len(rows), n), desc)
+				return
+			}
+			for _, row := range rows {
+				id, _ := row[0].(int64)
+				L := want[id]
+				ok := false
+				switch v := row[1].(type) {
+				case string:
+					ok = id%2 == 1 && len(v) == L && strings.Count(v, "x") >= L-8 && strings.HasSuffix(v, fmt.Sprint((id-1)/2))
+				case []byte:
+					ok = id%2 == 0 && len(v) == L && len(bytes.Trim(v, "\x00")) == 0
+				}
+				if !ok {
+					got := 0
+					switch v := row[1].(type) {
+					case string:
+						got = len(v)
+					case []byte:
+						got = len(v)
+					}
+					r.Violation("C14:table-values:huge", fmt.Sprintf("%s: row %d decodes to a %T of %d bytes, SQLite stored %d bytes (or the content differs)", how, id, row[1], got, L), desc)
+					return
+				}
+			}
+		}
+		rows, err := SelectAll(h, "huge", "id", "v")
+		check("Select(huge)", rows, err, len(want))
+		rows, err = IndexedAll(h, "huge", "huge_v", "id", "v")
+		check("IndexedSelect(huge,huge_v)", rows, err, len(want))
+		for id := range want {
+			row, err := h.SelectRowid("huge", id, "id", "v")
+			var rs [][]interface{}
+			if row != nil {
+				rs = append(rs, CopyRow(row))
+			}
+			check(fmt.Sprintf("SelectRowid(huge,%d)", id), rs, err, 1)
+		}
+		h.Close()
 	}
 }
